@@ -13,7 +13,7 @@
 #include "pool.h"
 #include "threadpool/threadpool_task.h"
 
-enum { K_RECV = 0, K_SEND, K_DGRAM, K_ACCEPT, K_CONNECT, K_CONNEX, K_NKINDS };
+enum { K_RECV = 0, K_SEND, K_DGRAM, K_ACCEPT, K_CONNECT, K_CONNEX, K_NOTIFY, K_NKINDS };
 enum { ST_NONE = 0, ST_ARMED, ST_PARKED, ST_STOPPED, ST_DEAD };
 enum { A_CONTINUE = 0, A_PARK, A_STOP, A_DESTROY };
 #define MAX_TASK 2
@@ -265,6 +265,53 @@ static int dgram_cb(tp_task_p tptask, int error, struct sockaddr_storage *addr, 
 	return TP_TASK_CB_CONTINUE;
 }
 
+/* readiness notifier: the library moves nothing, the user (here) reads what is there */
+static int notify_cb(tp_task_p tptask, int error, uint32_t eof, size_t data2transfer_size, void *udata) {
+	tk *t = udata;
+	uint8_t tmp[512];
+	(void)data2transfer_size;
+	if (cb_common_entry(t, "notify")) return TP_TASK_CB_NONE;
+	if (tptask != t->task) { sim_violation("io-bad-arg", "task %d: notify callback received another task", t->slot); return TP_TASK_CB_NONE; }
+	sim_log("task %d notify cb#%d error=%d eof=%x avail=%zu", t->slot, t->ncb, error, eof, data2transfer_size);
+	if (error == ETIMEDOUT) {
+		t->timeouts++;
+		sim_probe("c16.timeout_reported");
+		if (0 == t->timeout_ms || sim_now() < t->last_arm + t->timeout_ms * 1000000ull) { sim_violation("io-timeout", "task %d: notify timeout reported at %llu ns, timer (re)armed at %llu ns, timeout %llu ms", t->slot, (unsigned long long)sim_now(), (unsigned long long)t->last_arm, (unsigned long long)t->timeout_ms); return TP_TASK_CB_NONE; }
+		if (script(t, t->ncb) % 100 < 60) { t->last_arm = sim_now(); return TP_TASK_CB_CONTINUE; }
+		apply_action(t, A_STOP);
+		return TP_TASK_CB_NONE;
+	}
+	for (;;) {
+		ssize_t rd = read(t->fd, tmp, sizeof(tmp));
+		if (rd <= 0) break;
+		for (ssize_t i = 0; i < rd; i++)
+			if (tmp[i] != pay(t->slot, t->done + (size_t)i)) { sim_violation("io-data", "task %d: byte %zu read after a readiness notification is wrong", t->slot, t->done + (size_t)i); return TP_TASK_CB_NONE; }
+		t->done += (size_t)rd;
+	}
+	sim_fd_activity();
+	if (error != 0) {
+		t->err_reported++;
+		sim_probe("c16.error_reported");
+		if (!t->peer_closed && !t->faults_seen) { sim_violation("io-false-error", "task %d: notify error %d although the peer is open", t->slot, error); return TP_TASK_CB_NONE; }
+		apply_action(t, A_STOP);
+		return TP_TASK_CB_NONE;
+	}
+	if (eof != 0) {
+		t->eof_reported++;
+		sim_probe("c16.eof_reported");
+		if (!t->peer_closed) { sim_violation("io-false-eof", "task %d: notify reports end of stream (%x) although the peer is open", t->slot, eof); return TP_TASK_CB_NONE; }
+		apply_action(t, A_STOP);
+		return TP_TASK_CB_NONE;
+	}
+	sim_probe("c16.notify_ready");
+	{
+		int act = next_action(t);
+		apply_action(t, act);
+		if (act == A_CONTINUE) { t->last_arm = sim_now(); return TP_TASK_CB_CONTINUE; }
+	}
+	return TP_TASK_CB_NONE;
+}
+
 static int accept_cb(tp_task_p tptask, int error, uintptr_t skt_new, struct sockaddr_storage *addr, void *udata) {
 	tk *t = udata;
 	(void)addr;
@@ -434,7 +481,7 @@ static void op_task(const item_t *it) {
 		sim_mark_interesting();
 		return;
 	}
-	case K_RECV: case K_SEND: case K_CONNECT:
+	case K_RECV: case K_SEND: case K_CONNECT: case K_NOTIFY:
 		if (0 != socketpair(AF_UNIX, SOCK_STREAM | SOCK_NONBLOCK | SOCK_CLOEXEC, 0, sv)) { sim_violation("sim-limit", "socketpair failed"); return; }
 		break;
 	case K_DGRAM:
@@ -490,6 +537,10 @@ static void op_task(const item_t *it) {
 		t->evfl = 0;
 		rc = tp_task_pkt_rcvr_create(tpt, (uintptr_t)t->fd, 0, t->timeout_ms, &t->buf, dgram_cb, t, &t->task);
 		break;
+	case K_NOTIFY:
+		t->evfl = 0;
+		rc = tp_task_notify_create(tpt, (uintptr_t)t->fd, 0, TP_EV_READ, t->timeout_ms, notify_cb, t, &t->task);
+		break;
 	case K_ACCEPT:
 		t->evfl = 0;
 		rc = tp_task_accept_create(tpt, (uintptr_t)t->fd, 0, t->timeout_ms, accept_cb, t, &t->task);
@@ -511,7 +562,7 @@ static void op_peer(const item_t *it, const char *k) {
 	if (0 == strcmp(k, "psend")) {
 		size_t n = (size_t)item_get(it, "n", 1);
 		uint8_t tmp[1024];
-		if (t->kind == K_RECV) {
+		if (t->kind == K_RECV || t->kind == K_NOTIFY) {
 			if (t->peer_closed) return;
 			if (n > sizeof(tmp)) n = sizeof(tmp);
 			if (t->peer_sent + n > PAY_MAX) return;
@@ -555,7 +606,7 @@ static void op_peer(const item_t *it, const char *k) {
 	} else if (0 == strcmp(k, "pclose")) {
 		int how = (int)item_get(it, "how", 0);
 		if (t->kind == K_ACCEPT || t->peer < 0 || t->peer_closed) return;
-		if (how == 1 && (t->kind == K_RECV)) { shutdown(t->peer, SHUT_WR); t->peer_closed = 1; t->peer_halfclosed = 1; sim_probe("c16.peer_half_close"); }
+		if (how == 1 && (t->kind == K_RECV || t->kind == K_NOTIFY)) { shutdown(t->peer, SHUT_WR); t->peer_closed = 1; t->peer_halfclosed = 1; sim_probe("c16.peer_half_close"); }
 		else if (how == 2 && t->kind != K_DGRAM) {
 			/* reset: close while unread data sits in the peer's receive queue */
 			char c = 'r';
@@ -679,11 +730,11 @@ static void c16_gen(plan_t *p, rng_t *r, int tier) {
 	gen_sched(p, r, tier, 1);
 	item_set(&p->sched, "budget", 250000);
 	for (int s = 0; s < ntasks; s++) {
-		static const int kw[] = { K_RECV, K_RECV, K_RECV, K_RECV, K_SEND, K_SEND, K_DGRAM, K_ACCEPT, K_CONNECT, K_CONNEX, K_CONNEX };
+		static const int kw[] = { K_RECV, K_RECV, K_RECV, K_RECV, K_SEND, K_SEND, K_DGRAM, K_ACCEPT, K_CONNECT, K_CONNEX, K_CONNEX, K_NOTIFY };
 		static const uint16_t efl[] = { 0, 0, TP_F_DISPATCH, TP_F_DISPATCH, TP_F_ONESHOT };
 		static const int sizes[] = { 16, 40, 64, 256, 300, 1024, 4096 };
 		static const int tmo[] = { 0, 0, 1, 5, 20, 100, 1000 };
-		int kind = kw[rng_below(r, 11)];
+		int kind = kw[rng_below(r, 12)];
 		size_t size = (size_t)sizes[rng_below(r, 7)], off = rng_chance(r, 400) ? (size_t)rng_below(r, size / 2 + 1) : 0, tr = rng_chance(r, 400) ? (size_t)rng_range(r, 1, (int64_t)(size - off)) : 0;
 		uint64_t timeout = (uint64_t)tmo[rng_below(r, 7)];
 		op_t *op = plan_add_op(p, "task");
@@ -821,6 +872,14 @@ static void *c16_root(void *arg) {
 		}
 		if (t->kind == K_RECV && t->peer_closed && !t->eof_reported && !t->err_reported && t->buf.transfer_size > 0 && !t->faults_seen) {
 			sim_violation("io-eof-missed", "task %d (evfl %x): the peer closed but neither end of stream nor an error was reported to the armed task", s, t->evfl);
+			break;
+		}
+		if (t->kind == K_NOTIFY && t->done < t->peer_sent && !t->peer_reset) {
+			sim_violation("io-undelivered", "task %d: %zu byte(s) are waiting on the descriptor of an armed read notifier (timeout %llu ms) but it was not notified (it has read %zu)", s, t->peer_sent - t->done, (unsigned long long)t->timeout_ms, t->done);
+			break;
+		}
+		if (t->kind == K_NOTIFY && t->peer_closed && !t->eof_reported && !t->err_reported) {
+			sim_violation("io-eof-missed", "task %d: the peer closed but the armed read notifier was told neither end of stream nor an error", s);
 			break;
 		}
 		if (t->kind == K_DGRAM && t->dg_recv < t->dg_sent && !t->faults_seen) { sim_violation("io-undelivered", "task %d: %d datagram(s) sent, %d delivered to the armed receiver", s, t->dg_sent, t->dg_recv); break; }
